@@ -433,6 +433,18 @@ pub fn c02prune() -> bool {
             eprintln!("c02prune: before {before} entries; insert reported {:?} removed (expected 4); left {:?}, expected {:?}", removed, got, want);
             bad = true;
         }
+        // the key-ordered access path (by-key index) must show the same entries as the author-ordered one
+        let by_key: Vec<SignedEntry> = store
+            .get_many(doc.ns.id(), crate::store::Query::all().include_empty().sort_by(crate::store::SortBy::KeyAuthor, crate::store::SortDirection::Asc))
+            .unwrap()
+            .collect::<Result<Vec<_>, _>>()
+            .unwrap();
+        let mut got_k: Vec<(usize, Vec<u8>)> = by_key.iter().map(|e| (doc.authors.iter().position(|a| a.id() == e.author()).unwrap(), e.key().to_vec())).collect();
+        got_k.sort();
+        if got_k != got {
+            eprintln!("c02prune: after pruning the key-ordered query shows {:?}, the author-ordered one {:?}", got_k, got);
+            bad = true;
+        }
     }
     bad
 }
